@@ -15,6 +15,8 @@ GNext ==
   \/ /\ More /\ \E o \in Pick(Objs), i \in Pick(Slots) : slot[<<o, i>>] # 0 /\ Clear(o, i) /\ Log([op |-> "clear", o |-> o, i |-> i])
   \/ /\ More /\ \E o \in Pick(Objs), i \in Pick(Slots), p \in Pick(Objs), j \in Pick(Slots) :
           /\ slot[<<o, i>>] # 0 /\ Put(o, i, p, j) /\ Log([op |-> "put", o |-> o, i |-> i, p |-> p, j |-> j])
+  \/ /\ More /\ \E o \in Pick(Objs), i \in Pick(Slots), p \in Pick(Objs), j \in Pick(Slots), m \in Pick(1..3) :
+          /\ slot[<<o, i>>] # 0 /\ PutR(o, i, p, j) /\ Log([op |-> "putr", o |-> o, i |-> i, p |-> p, j |-> j, mode |-> m])
   \/ /\ More /\ \E o \in Pick(Objs), i \in Pick(Slots), j \in Pick(Slots) : NewFp(o, i, j) /\ Log([op |-> "fp", o |-> o, i |-> i, j |-> j])
   \/ /\ More /\ \E o \in Pick(Objs), i \in Pick(Slots) : slot[<<o, i>>] # 0 /\ CallOut(o, i) /\ Log([op |-> "callout", o |-> o, i |-> i])
   \/ /\ More /\ \E o \in Pick(Objs), k \in Pick({1, 2}) : RmCallOut(o, k) /\ Log([op |-> "rmco", o |-> o])
@@ -23,6 +25,6 @@ GNext ==
   \/ /\ ~More /\ UNCHANGED gvars
 GInit == Init /\ hist = <<>>
 GSpec == GInit /\ [][GNext]_gvars
-Interesting == \E k \in 1..Len(hist) : hist[k].op \in {"copy", "put", "fp", "callout"}
+Interesting == \E k \in 1..Len(hist) : hist[k].op \in {"copy", "put", "putr", "fp", "callout"}
 Emit == (Len(hist) = MaxLen /\ Interesting) => PrintT(<<"@@B", ToJson(hist)>>)
 =============================================================================
